@@ -247,6 +247,17 @@ def _ack(chk, repo, folder):
     chk.check(blk is not None and src(blk) == "self._current_block[ackseq:]", "R5", f"{CL}:{C}._retransmit | resend from the acknowledged count", r.loc(),
               f"block = {src(blk) if blk is not None else '?'}; expected self._current_block[ackseq:]")
     loops = [n for n in fr_.cfg.nodes if n.kind == "for" and src(n.ast.iter) == "block"]
+    if not loops:
+        # another shape of the resend: any loop that sends; the per-acknowledge state must still be set once, before it
+        any_loops = [n for n in own_nodes(r.node) if isinstance(n, ast.For) and any(isinstance(c, ast.Call) and dotted(c.func) in ("self.write", "self.send") for c in ast.walk(n))]
+        for attr in ("_blksize", "_seqno", "_current_block"):
+            inner = [s_ for s_ in attr_stores(r.node, attr) if any(any(x is s_ for x in ast.walk(lp_)) for lp_ in any_loops)]
+            for s_ in inner:
+                chk.bad("R5", f"{CL}:{C}._retransmit | {attr} not overwritten after resending", r.loc(s_),
+                        f"`{src(s_)}` runs inside the loop that resends: after the first resent sub-block its acknowledge has installed the server's new block size / "
+                        f"sequence state, which this statement replaces by the stale value of the first acknowledge")
+        if any_loops and any(any(any(x is s_ for x in ast.walk(lp_)) for lp_ in any_loops) for attr in ("_blksize", "_seqno", "_current_block") for s_ in attr_stores(r.node, attr)):
+            return
     chk.floor("R5", len(loops), 1, "resend loop")
     for lp in loops:
         body_ok = len(lp.ast.body) == 1 and src(lp.ast.body[0]) == f"self.write({src(lp.ast.target)})"
